@@ -132,7 +132,7 @@ def main(tier):
                 t["run"] = "/venv/bin/python " + "../" * depth + "probe.py"
         scn["clock"] = None
         bscn.append(scn)
-    bres = C.fork_map(run_real, bscn, timeout=120)
+    bres = C.fork_map(run_real, bscn, timeout=900)
     ltraces = []
     for k, (scn, r) in enumerate(zip(bscn, bres)):
         if r is None or "_error" in r or "_timeout" in r:
